@@ -603,6 +603,7 @@ func TestCheck(t *testing.T) {
 				}
 				cs := ExpandCase{E: fmt.Sprintf("%07d", i)}
 				raw, _ := json.Marshal(cs)
+				hx.JournalCase("expand", raw)
 				if err := hx.Safe(func() error { return checkExpand(raw) }); err != nil {
 					c.Enum("upce_expansion_all", "expand", cs, nil)
 					break
